@@ -25,7 +25,10 @@ func rep(b byte, n int) []byte {
 var (
 	// signer addresses: always 20 bytes (derived from public keys on a chain)
 	Signers = []string{
-		hx(rep(0xa0, 20)), hx(rep(0xb1, 20)), hx(rep(0xc2, 20)), hx(rep(0xd3, 20)), hx(rep(0xe4, 20)),
+		hx(rep(0xa0, 20)), hx(rep(0xb1, 20)),
+		hx(append(rep(0xc2, 19), 0x00)), // ends with a zero byte
+		hx(append(rep(0xd3, 19), 't')),  // ends with a letter of the denom "stake"
+		hx(rep(0xe4, 20)),
 	}
 	// non-signer addresses (provider / withdrawal fields): any non-empty byte string.
 	// Built as prefixes and extensions of signer addresses and of each other.
@@ -74,12 +77,13 @@ type Focus struct {
 	PrefixProv int            // percent preference for prefix-related provider addresses
 	PreludePct int            // percent of cases that open with a productive prelude
 	RestartW   int            // weight of the zero-height restart action (0 = never)
+	ParamChangeW int          // weight of a governance parameter change (0 = never)
 	Only20Pct  int            // percent of cases restricted to 20-byte addresses everywhere (avoids a listed finding's trigger)
 	only20     bool           // drawn per case
 }
 
 func FocusFor(prop string, tier string) Focus {
-	f := Focus{Prop: prop, MaxSteps: 32, W: map[string]int{}, WrongSign: 15, ModSvcPct: 15, Boundary: 0, PrefixProv: 20, PreludePct: 50, RestartW: 1}
+	f := Focus{Prop: prop, MaxSteps: 32, W: map[string]int{}, WrongSign: 15, ModSvcPct: 15, Boundary: 0, PrefixProv: 20, PreludePct: 50, RestartW: 1, ParamChangeW: 1}
 	if tier == "thorough" {
 		f.MaxSteps = 70
 	}
@@ -94,6 +98,11 @@ func FocusFor(prop string, tier string) Focus {
 	case "C03", "C14":
 		mul(3, KBind, KUpdateBind, KDisable, KEnable, KRefundDep)
 		f.ModSvcPct = 5
+		if prop == "C14" {
+			// "under the parameters in force": raising the minimum by governance legitimately leaves
+			// existing bindings below it, so C14 explores constant parameters
+			f.ParamChangeW = 0
+		}
 	case "C04":
 		mul(2, KCall, KRespond)
 	case "C05":
@@ -155,6 +164,10 @@ func GenConfig(t *rapid.T, f Focus) Config {
 	c.Multiple = rapid.SampledFrom([]int64{2, 1, 10, 200}).Draw(t, "multiple")
 	c.ArbitrationNs = rapid.SampledFrom([]int64{1, 1e9, 5e9, 3600e9}).Draw(t, "arbitration")
 	c.ComplaintNs = rapid.SampledFrom([]int64{1, 1e9, 5e9, 3600e9}).Draw(t, "complaint")
+	if pct(t, "century_periods", 4) {
+		// every positive period is legal: two periods of ~150 years each (their sum exceeds what fits in one Duration)
+		c.ArbitrationNs, c.ComplaintNs = yearsNs(150), yearsNs(150)
+	}
 	c.Funding = map[string]int64{}
 	for i, s := range Signers {
 		var opts []int64
@@ -190,7 +203,8 @@ func modProv(t *rapid.T, f Focus) string {
 	if f.only20 {
 		return hx(rep(0x5d, 20))
 	}
-	return rapid.SampledFrom([]string{hx(rep(0x5d, 20)), hx(rep(0xa0, 12))}).Draw(t, "modprov")
+	// 20 bytes unrelated; 12-byte prefix of signer 0; signer 0 extended by a letter (so that "<rest>stake" reads like a denom)
+	return rapid.SampledFrom([]string{hx(rep(0x5d, 20)), hx(rep(0xa0, 12)), hx(append(rep(0xa0, 20), 'x'))}).Draw(t, "modprov")
 }
 
 // ---------------------------------------------------------------------------------------------
@@ -216,6 +230,11 @@ func (f *Focus) DrawCaseFlags(t *rapid.T) {
 
 func (g *GenState) Observe(r *StepRec) {
 	g.Snap = r.Post
+	if r.OK && r.Action.Kind == KSetParams && r.Action.Params != nil {
+		p := r.Action.Params
+		g.Cfg.Tax, g.Cfg.Slash, g.Cfg.MaxTimeout, g.Cfg.MinDeposit, g.Cfg.Multiple = p.Tax, p.Slash, p.MaxTimeout, p.MinDeposit, p.Multiple
+		g.Cfg.ArbitrationNs, g.Cfg.ComplaintNs = p.ArbitrationNs, p.ComplaintNs
+	}
 	if r.OK {
 		g.CtxIDs = append(g.CtxIDs, r.CtxIDs...)
 	}
@@ -226,6 +245,8 @@ func (g *GenState) Observe(r *StepRec) {
 		}
 	}
 }
+
+func yearsNs(y int64) int64 { return y * 365 * 24 * 3600 * 1e9 }
 
 func fmtTime(ns int64) string { return time.Unix(0, ns).UTC().Format(time.RFC3339Nano) }
 
@@ -280,7 +301,7 @@ func (g *GenState) interestingInstants() []int64 {
 				out = append(out, w.StartNs, w.EndNs)
 			}
 		}
-		if !b.Available && !b.DisabledTime.IsZero() && b.DisabledTime.Unix() > 0 {
+		if !b.Available && !b.DisabledTime.IsZero() && b.DisabledTime.Unix() > 0 && g.Cfg.ArbitrationNs < yearsNs(100) {
 			out = append(out, b.DisabledTime.UnixNano()+g.Cfg.ArbitrationNs+g.Cfg.ComplaintNs)
 		}
 	}
@@ -528,7 +549,7 @@ func (g *GenState) ctxConsumer(id string) string {
 // ---------------------------------------------------------------------------------------------
 // action kinds and weights
 
-var kindOrder = []string{KRestart, KEndBlock, KDefine, KBind, KCall, KRespond, KUpdateBind, KDisable, KEnable, KRefundDep, KSetWithdr,
+var kindOrder = []string{KRestart, KSetParams, KEndBlock, KDefine, KBind, KCall, KRespond, KUpdateBind, KDisable, KEnable, KRefundDep, KSetWithdr,
 	KWithdraw, KPause, KStart, KKill, KUpdateCtx, KModCreate, KModPause, KModStart, KModKill, KModUpdate, KTx}
 
 func (g *GenState) weights() []int {
@@ -580,6 +601,9 @@ func (g *GenState) weights() []int {
 	w[KTx] = 1
 	if nBinds > 0 && g.F.RestartW > 0 {
 		w[KRestart] = g.F.RestartW
+	}
+	if nBinds > 0 && g.F.ParamChangeW > 0 {
+		w[KSetParams] = g.F.ParamChangeW
 	}
 	out := make([]int, len(kindOrder))
 	for i, k := range kindOrder {
@@ -686,6 +710,9 @@ func (g *GenState) GenPrelude(t *rapid.T) []Action {
 		}
 		acts = append(acts, Action{Kind: KDisable, Signer: last.Signer, Service: svc, Provider: last.Provider})
 		wait := g.Cfg.ArbitrationNs + g.Cfg.ComplaintNs + pick(t, "pre_wait_off", []int64{0, -1, 1, 5e9})
+		if g.Cfg.ArbitrationNs >= yearsNs(100) {
+			wait = pick(t, "pre_wait_century", []int64{3600e9, yearsNs(150), 5e9})
+		}
 		if wait <= 0 {
 			wait = 1
 		}
@@ -818,6 +845,34 @@ func (g *GenState) genOfKind(t *rapid.T, kind string) Action {
 		return Action{Kind: KEndBlock, DeltaNs: g.genDelta(t)}
 	case KRestart:
 		return Action{Kind: KRestart}
+	case KSetParams:
+		// change one or two parameters, keep the rest as they are
+		n := g.Cfg
+		n.Funding, n.ModSvc = nil, nil
+		switch pick(t, "param", []string{"min_deposit", "multiple", "slash", "tax", "periods", "max_timeout"}) {
+		case "min_deposit":
+			cur := int64(0)
+			if n.MinDeposit != nil {
+				cur = *n.MinDeposit
+			}
+			v := pick(t, "new_min_deposit", []int64{cur + 1, cur * 2, cur + 1000, cur / 2, 0, 7000})
+			n.MinDeposit = i64(v)
+			if v == 0 {
+				n.MinDeposit = nil
+			}
+		case "multiple":
+			n.Multiple = pick(t, "new_multiple", []int64{n.Multiple + 1, n.Multiple * 10, 1, 200})
+		case "slash":
+			n.Slash = pick(t, "new_slash", []string{"0", "1", "0.5", "0.001"})
+		case "tax":
+			n.Tax = pick(t, "new_tax", []string{"0", "0.5", "0.1", "0.999999"})
+		case "periods":
+			n.ArbitrationNs = pick(t, "new_arb", []int64{1, 5e9, 3600e9})
+			n.ComplaintNs = pick(t, "new_compl", []int64{1, 5e9, 3600e9})
+		case "max_timeout":
+			n.MaxTimeout = pick(t, "new_max_timeout", []int64{1, 2, 5, 20})
+		}
+		return Action{Kind: KSetParams, Params: &n}
 	case KDefine:
 		name := pick(t, "def_name", ServiceNames)
 		if pct(t, "odd_name", 3) {
@@ -999,7 +1054,7 @@ func (g *GenState) genOfKind(t *rapid.T, kind string) Action {
 		n := pick(t, "tx_n", []int{2, 2, 3})
 		a := Action{Kind: KTx}
 		for i := 0; i < n; i++ {
-			k := g.genKind(t, map[string]bool{KTx: true, KEndBlock: true, KRestart: true})
+			k := g.genKind(t, map[string]bool{KTx: true, KEndBlock: true, KRestart: true, KSetParams: true})
 			a.Msgs = append(a.Msgs, g.genOfKind(t, k))
 		}
 		return a
